@@ -1665,6 +1665,26 @@ theorem stage_rel (n : Nat) (hn : 0 < n) (o : Orc) (id : Nat) (sp : D) (ss : Lis
         refine ⟨by simp, ?_⟩
         simp only [flatten_cons, flatten_nil, append_nil]
         rw [this.1]
+    | iteritems l =>
+      cases l with
+      | mk iters init agg cp ck body =>
+        intro st x y hne hp
+        simp only [parStage, evalStage]
+        have hb := bodyRel_foldl body (fun s => parStage n o id sp fuel s) (fun s => evalStage ss fuel s)
+          (fun s _ => ih s)
+        have := loop_rel true hb agg cp ck (o.merge id) (max iters 1) init x y hne hp
+        exact ⟨this.2.1, this.2.2⟩
+    | iterboth l =>
+      cases l with
+      | mk iters init agg cp ck body =>
+        intro st x y hne hp
+        simp only [parStage, evalStage]
+        have hb := bodyRel_foldl body (fun s => parStage n o id sp fuel s) (fun s => evalStage ss fuel s)
+          (fun s _ => ih s)
+        have := loop_rel true hb agg cp ck (o.merge id) (max iters 1) init x y hne hp
+        refine ⟨by simp, ?_⟩
+        rw [flatten_append, this.1]
+        exact this.2.2.append (by simp)
 
 /-- **replay_seq / iterate_seq**: a whole loop (any nesting of `replay` / `iterate` in the body, side
     input included) run with the parallel protocol ends in the same state as the sequential loop,
